@@ -25,8 +25,15 @@ fn sorted(v: &Value) -> Value {
     json!(items)
 }
 
-/// All comparisons between an event and TLC's expectation:
-/// (facet, expected, actual, is_upper_bound).
+/// All comparisons made for one step: (facet, expected, actual, is_upper_bound).
+///
+/// Two families. (a) Equality with TLC's expectation: what the call returned
+/// and the state it left. A difference in the KEY SET is a root cause of which
+/// most other differences are mere consequences, so the facets that depend on
+/// the content are only compared when the key sets agree. (b) Self-consistency
+/// of what the real cache reports (mirror traversals, pointer identity,
+/// accounting against its own content, the bound, lookups against its own
+/// traversal): evaluated on the real state alone.
 fn facets(ev: &Value, ex: &Value) -> Vec<(String, Value, Value, bool)> {
     let mut out = Vec::new();
     let mut eq = |name: &str, e: Value, a: Value| out.push((name.to_string(), e, a, false));
@@ -43,63 +50,79 @@ fn facets(ev: &Value, ex: &Value) -> Vec<(String, Value, Value, bool)> {
     let act_rows: Vec<Value> = st["ord"].as_array().cloned().unwrap_or_default();
     let exp_keys: Vec<Value> = exp_rows.iter().map(|r| r[0].clone()).collect();
     let act_keys: Vec<Value> = act_rows.iter().map(|r| r[0].clone()).collect();
+    let same_keyset = sorted(&json!(exp_keys)) == sorted(&json!(act_keys));
+    let same_keys = exp_keys == act_keys;
     eq("keys", json!(exp_keys), json!(act_keys));
-    eq("sizes", json!(exp_rows.iter().map(|r| json!([r[0], r[1], r[2]])).collect::<Vec<_>>()),
-       json!(act_rows.iter().map(|r| json!([r[0], r[1], r[2]])).collect::<Vec<_>>()));
-    eq("es", json!(exp_rows.iter().map(|r| r[3].clone()).collect::<Vec<_>>()),
-       json!(act_rows.iter().map(|r| r[3].clone()).collect::<Vec<_>>()));
 
-    if t["alive"] == true {
+    if same_keys {
+        eq("sizes", json!(exp_rows.iter().map(|r| json!([r[0], r[1], r[2]])).collect::<Vec<_>>()),
+           json!(act_rows.iter().map(|r| json!([r[0], r[1], r[2]])).collect::<Vec<_>>()));
+    }
+
+    if t["alive"] == true && st["alive"] == true {
         let hook = &st["hook"];
-        eq("rec", json!(exp_rows.iter().map(|r| r[3].clone()).collect::<Vec<_>>()),
-           json!(hook["fwd"].as_array().map(|v| v.iter().map(|n| n[1].clone()).collect::<Vec<_>>())
-                .unwrap_or_default()));
-        eq("cur", t["cur"].clone(), st["cur"].clone());
-        eq("bound", json!(true), json!(dec(&st["cur"]) <= dec(&st["max"])));
+        let recs: Vec<Value> = hook["fwd"].as_array()
+            .map(|v| v.iter().map(|n| n[1].clone()).collect()).unwrap_or_default();
+        let same_content = same_keys && exp_rows.iter().zip(act_rows.iter())
+            .all(|(e, a)| e[1] == a[1] && e[2] == a[2]);
+
+        // (a) against TLC
+        if same_content {
+            eq("rec", json!(exp_rows.iter().map(|r| r[3].clone()).collect::<Vec<_>>()), json!(recs));
+            eq("cur", t["cur"].clone(), st["cur"].clone());
+        }
+
         eq("max", t["max"].clone(), st["max"].clone());
-        eq("cap", t["cap"].clone(), st["cap"].clone());
-        eq("b", t["b"].clone(), hook["b"].clone());
-        eq("len", json!(exp_rows.len()), st["len"].clone());
-        eq("is_empty", json!(exp_rows.is_empty()), st["is_empty"].clone());
-        let mut rev = exp_keys.clone();
+
+        if same_keyset {
+            eq("cap", t["cap"].clone(), st["cap"].clone());
+            eq("b", t["b"].clone(), hook["b"].clone());
+            let fresh = ex["fresh"].as_i64().unwrap_or(0);
+            let marks: Vec<Value> = act_keys.iter().map(|k| {
+                if k.as_i64() == Some(fresh) { json!([["AK", 0], ["AV", 0]]) }
+                else { json!([["K", k], ["V", k]]) }
+            }).collect();
+            eq("marks", json!(marks), st["marks"].clone());
+        }
+
+        // (b) the real state against itself
+        let es: Vec<Value> = act_rows.iter().map(|r| r[3].clone()).collect();
+        eq("bound", json!(true), json!(dec(&st["cur"]) <= dec(&st["max"])));
+        eq("es_eq_rec", json!(es), json!(recs));
+        eq("sum_rec", st["cur"].clone(),
+           json!(recs.iter().map(|v| v.as_i64().unwrap_or(0)).sum::<i64>()));
+        eq("len", json!(act_rows.len()), st["len"].clone());
+        eq("is_empty", json!(act_rows.is_empty()), st["is_empty"].clone());
+        let mut rev = act_keys.clone();
         rev.reverse();
         eq("mirror", json!(rev), st["rev"].clone());
-        eq("keysiter", json!(exp_keys), st["keys"].clone());
+        eq("keysiter", json!(act_keys), st["keys"].clone());
         eq("vals_ok", json!(true), st["vals_ok"].clone());
-        eq("lru", exp_keys.first().cloned().unwrap_or(json!(0)), st["lru"].clone());
-        eq("mru", exp_keys.last().cloned().unwrap_or(json!(0)), st["mru"].clone());
+        eq("lru", act_keys.first().cloned().unwrap_or(json!(0)), st["lru"].clone());
+        eq("mru", act_keys.last().cloned().unwrap_or(json!(0)), st["mru"].clone());
         let fwd_buckets: Vec<Value> = hook["fwd"].as_array()
             .map(|v| v.iter().map(|n| n[0].clone()).collect()).unwrap_or_default();
         eq("ptr_iter", json!(fwd_buckets), st["nb"].clone());
         eq("ptr_peek", json!(fwd_buckets), st["pb"].clone());
         eq("dead", json!(0), st["dead"].clone());
-        eq("hook_cur", t["cur"].clone(), hook["cur"].clone());
-
-        // expected identity of the stored objects
-        let fresh = ex["fresh"].as_i64().unwrap_or(0);
-        let marks: Vec<Value> = exp_keys.iter().map(|k| {
-            if k.as_i64() == Some(fresh) { json!([["AK", 0], ["AV", 0]]) }
-            else { json!([["K", k], ["V", k]]) }
-        }).collect();
-        eq("marks", json!(marks), st["marks"].clone());
-
-        // lookups of every key of the universe, both key forms
+        eq("hook_cur", st["cur"].clone(), hook["cur"].clone());
+        eq("nodup", json!(act_keys.len()), json!(sorted(&json!(act_keys)).as_array()
+            .map(|v| { let mut u = v.clone(); u.dedup(); u.len() }).unwrap_or(0)));
         let probe: Vec<Value> = ev["probe"].as_array().cloned().unwrap_or_default();
         let exp_probe: Vec<Value> = probe.iter().map(|p| {
-            let present = exp_keys.iter().any(|k| *k == p[0]);
-            let f = present as i64;
+            let f = act_keys.iter().any(|k| *k == p[0]) as i64;
             json!([p[0], f, f, f, f])
         }).collect();
         eq("probe", json!(exp_probe), json!(probe));
         eq("probe_ro", ev["fp"].clone(), ev["fp2"].clone());
     }
 
-    if !expect_panic {
+    if !expect_panic && same_keyset {
         eq("ret", ex["ret"].clone(), ev["ret"].clone());
+        eq("dropped", sorted(&ex["dropped"]), sorted(&ev["dropped"]));
+        eq("handed", sorted(&ex["handed"]), sorted(&ev["handed"]));
     }
 
-    eq("dropped", sorted(&ex["dropped"]), sorted(&ev["dropped"]));
-    eq("handed", sorted(&ex["handed"]), sorted(&ev["handed"]));
     eq("anom", json!([]), ev["anom"].clone());
     eq("others", json!(ev["others"].as_array().map(|v| v.iter()
         .map(|o| json!([o[0], true])).collect::<Vec<_>>()).unwrap_or_default()), ev["others"].clone());
@@ -175,8 +198,14 @@ fn run_segments(args: &[String], cfg: &Config) {
             reg_reset();
             runs += 1;
 
+            let mut broken = false;
+            let corrupt = |ev: &Value| ev["st"]["alive"] == true && ev["st"]["trav"] == false;
+
             for o in prefix.iter() {
-                writeln!(events, "{}", session.exec(o)).unwrap();
+                if broken { break; }
+                let ev = session.exec(o);
+                broken = corrupt(&ev);
+                writeln!(events, "{}", ev).unwrap();
                 executed += 1;
             }
 
@@ -186,21 +215,30 @@ fn run_segments(args: &[String], cfg: &Config) {
                 o["crash"] = json!({"kind": kind, "n": n});
             }
 
-            let ev = session.exec(&o);
-            let did_fire = ev["fired"] == true;
-            writeln!(events, "{}", ev).unwrap();
-            executed += 1;
-            *per_op.entry(o["a"]["op"].as_str().unwrap_or("?").to_string()).or_default() += 1;
+            let mut did_fire = false;
+
+            if !broken {
+                let ev = session.exec(&o);
+                did_fire = ev["fired"] == true;
+                broken = corrupt(&ev);
+                writeln!(events, "{}", ev).unwrap();
+                executed += 1;
+                *per_op.entry(o["a"]["op"].as_str().unwrap_or("?").to_string()).or_default() += 1;
+            }
 
             if did_fire || kind.is_empty() {
                 for o in suffix.iter() {
-                    writeln!(events, "{}", session.exec(o)).unwrap();
+                    if broken { break; }
+                    let ev = session.exec(o);
+                    broken = corrupt(&ev);
+                    writeln!(events, "{}", ev).unwrap();
                     executed += 1;
                 }
             }
 
-            let fin = session.finish();
+            let fin = if broken { session.abandon() } else { session.finish() };
             writeln!(events, "{}", json!({"reset": true, "fin": fin, "leak_ok": true})).unwrap();
+            events.flush().unwrap();
 
             if !kind.is_empty() {
                 if did_fire {
@@ -271,6 +309,7 @@ fn main() {
     // once the real state equals the expected one again.
     let mut in_sync = true;
     let mut skipped = 0u64;
+    let mut broken = false;
 
     for line in reader.lines() {
         let line = line.unwrap();
@@ -286,7 +325,8 @@ fn main() {
         };
 
         if op["reset"] == true {
-            let fin = session.finish();
+            let fin = if broken { session.abandon() } else { session.finish() };
+            broken = false;
             ends += 1;
             let allowed = op["leak_ok"] == true;
 
@@ -318,9 +358,20 @@ fn main() {
             continue;
         }
 
+        if broken {
+            skipped += 1;
+            continue;
+        }
+
         let ev = session.exec(&op);
         executed += 1;
         *per_op.entry(op["a"]["op"].as_str().unwrap_or("?").to_string()).or_default() += 1;
+
+        if ev["st"]["alive"] == true && ev["st"]["trav"] == false {
+            // the list is open or points outside the table: nothing more can
+            // safely be executed on these caches
+            broken = true;
+        }
 
         if let Some(w) = events.as_mut() {
             if executed <= events_limit {
@@ -331,7 +382,8 @@ fn main() {
         if compare && !op["expect"].is_null() {
             let fs = facets(&ev, &op["expect"]);
             let state_ok = fs.iter().all(|(f, e, a, _)| {
-                !matches!(f.as_str(), "alive" | "keys" | "sizes" | "rec" | "cur" | "max" | "cap" | "b") || e == a
+                !matches!(f.as_str(), "alive" | "keys" | "sizes" | "rec" | "cur" | "max" | "cap" | "b"
+                    | "trav") || e == a
             });
             let was_in_sync = in_sync;
             in_sync = state_ok;
